@@ -313,6 +313,23 @@ pub fn generate_with(rng: &mut Rng, tier: Tier, allow_null: bool) -> Plan {
     if g0 > 2 {
         queries.push(nodes[0].ts + 2);
     }
+    // far extrapolation of an exponential rule: tens to hundreds of interval lengths out,
+    // where values run through 1e-100, 1e-250 and finally under- or overflow
+    if (interp == "log_linear" || interp == "linear_zero_rate") && rng.chance(0.06) {
+        for _ in 0..3 {
+            let k = rng.log_uniform(5.0, 400.0);
+            let after = nodes[n - 1].ts as f64 + k * gl as f64;
+            if after.abs() < 2.0e11 {
+                queries.push(after as i64);
+            }
+            if interp == "log_linear" {
+                let before = nodes[0].ts as f64 - k * g0 as f64;
+                if before.abs() < 2.0e11 {
+                    queries.push(before as i64);
+                }
+            }
+        }
+    }
     rng.shuffle(&mut nodes);
     let ctor = if rng.chance(0.5) {
         Ctor::Df
@@ -1056,6 +1073,22 @@ fn probe(
                     c.ctor,
                 ));
             }
+            // where a value has underflowed to zero its sensitivities are zero too, not NaN
+            if order > 0 {
+                let gz = grad_of(&got, names);
+                let hz = hess_of(&got, names).unwrap_or_default();
+                if gz.iter().chain(hz.iter()).any(|x| !x.is_finite()) {
+                    return Err(annotate(
+                        v(
+                            &format!("non-finite-sensitivity-at-zero-value|{}", ctx),
+                            "a looked-up value of exactly 0 carries a non-finite sensitivity".into(),
+                        ),
+                        seq,
+                        *q,
+                        c.ctor,
+                    ));
+                }
+            }
             if let (Some(b), true) = (model.base, *q >= first_ts) {
                 if s.real == 0.0 {
                     let expect = b / s.real;
@@ -1096,8 +1129,23 @@ fn probe(
         }
         // far outside any sensible regime (the squares that second derivatives need would
         // overflow or underflow): no verdict
-        if !want.v.x.is_finite() || want.v.x.abs() < 1e-60 || want.v.x.abs() > 1e60 {
+        let extreme = want.v.x.abs() < 1e-60 || want.v.x.abs() > 1e60;
+        if !want.v.x.is_finite() || (extreme && !(1e-280..=1e280).contains(&want.v.x.abs())) {
             obs.count("skipped.out_of_range_value");
+            continue;
+        }
+        if extreme {
+            // the exponential rules stay exact out here (no squares of the value are taken);
+            // the index value, which needs 1/value^2, and the linear rule do not
+            if model.interp != "log_linear" && model.interp != "linear_zero_rate" {
+                obs.count("skipped.out_of_range_value");
+                continue;
+            }
+            let got = call(P, "Curve::value", || sut.value(&d))?;
+            digest_number(&mut h, &got);
+            check_number("value", &got, &want, names, &allset, order, ctx, 0.0)
+                .map_err(|e| annotate(e, seq, *q, c.ctor))?;
+            obs.count("reach.far_extrapolated_value_beyond_1e60");
             continue;
         }
         let got = call(P, "Curve::value", || sut.value(&d))?;
